@@ -826,4 +826,50 @@ theorem fast_bilinear_cover_eq_partial (hpl : PackedLerpExact) (b : Bits) (t : T
   rw [tap_inside b _ _ ⟨fx0, by omega⟩ ⟨fy0, by omega⟩, tap_inside b _ _ ⟨by omega, x1⟩ ⟨fy0, by omega⟩,
       tap_inside b _ _ ⟨fx0, by omega⟩ ⟨by omega, y1⟩, tap_inside b _ _ ⟨by omega, x1⟩ ⟨by omega, y1⟩]
 
+/-- PARTIAL: the scaled-bilinear main loops (C / MMX / SSE2 scanline functions of FAST_BILINEAR_MAINLOOP):
+    after the single `vx -= ½` pixel `k` uses the pixel pair starting at the Spec's `bilinearIndex` and the Spec's
+    7-bit weight of the reference position `X_k = v0 + k·unit_x` (so the taps and horizontal weights are those of
+    `bits_image_fetch_pixel_bilinear_32`).  Gap: the PAD/NONE zones and the NORMAL wrap/plain split (only their
+    memory safety is proved: `Props.C04.pad_bounds`, `normalLoop_safe`), the vertical weights `wt/wb`, and the SIMD
+    arithmetic; these are compared with the reference by the correspondence under every configuration. -/
+theorem bilinear_scanline_coords_partial (v0 ux : Int) (n : Nat)
+    (h : ∀ k : Nat, k < n → isI32 (v0 - 32768 + k * ux)) :
+    bilinearScanlineCoords ux n (v0 - 32768) = (List.range n).map fun (k : Nat) =>
+      (Pixman.Spec.Sampling.bilinearIndex (v0 + k * ux), Pixman.Spec.Sampling.bilinearWeight (v0 + k * ux) / 2) := by
+  have gen : ∀ (n : Nat) (v : Int), (∀ k : Nat, k < n → isI32 (v + k * ux)) →
+      bilinearScanlineCoords ux n v = (List.range n).map fun (k : Nat) =>
+        (fixedToInt (v + k * ux), bilinearWeight (v + k * ux)) := by
+    intro n
+    induction n with
+    | zero => intro v _; rfl
+    | succ m ih =>
+      intro v hk
+      rw [bilinearScanlineCoords, List.range_succ_eq_map, List.map_cons, List.map_map]
+      simp only [Int.natCast_zero, Int.zero_mul, Int.add_zero]
+      congr 1
+      cases m with
+      | zero => rfl
+      | succ m' =>
+        have h1 := hk 1 (by omega)
+        simp only [Int.natCast_one, Int.one_mul] at h1
+        rw [wrapS32_of_range _ h1, ih (v + ux) (fun k hk' => by
+          have := hk (k + 1) (by omega)
+          rw [Int.natCast_add, Int.add_mul] at this
+          simp only [Int.natCast_one, Int.one_mul] at this
+          have e : v + ux + (k : Int) * ux = v + ((k : Int) * ux + ux) := by omega
+          rw [e]; exact this)]
+        apply List.map_congr_left
+        intro i _
+        have e : v + ux + (i : Int) * ux = v + ((i + 1 : Nat) : Int) * ux := by
+          rw [Int.natCast_add, Int.add_mul]; simp only [Int.natCast_one, Int.one_mul]; omega
+        simp only [Function.comp, Nat.succ_eq_add_one, e]
+  rw [gen n _ h]
+  apply List.map_congr_left
+  intro k _
+  unfold Pixman.Spec.Sampling.bilinearIndex Pixman.Spec.Sampling.bilinearWeight fixedToInt bilinearWeight
+  have e : v0 - 32768 + ↑k * ux = v0 + ↑k * ux - 32768 := by omega
+  rw [e]
+  congr 1
+  omega
+
 end Pixman.Props.C08Fast
